@@ -8,6 +8,10 @@ B. erasing the previous paths (`eraseSess`): `setPrevOf` changes nothing else, a
    does not depend on previous paths
 C. the exact result of the double loop (`detectRenames_pairs`)
 D. the previous path of the record of a new path after a run of `setPrevOf` (`holderOf_foldl_setPrev`)
+…
+G. (D19) the order of the not-found paths, histories with nested histories allowed: the inner step named
+   (`drStepG`, `matchesG`, `setPrevG`), what the writes leave alone (`SameHolders`), the inner loop sees only the
+   matching paths (`inner_loop_G`), `detectRenames_congr_filter`, `detectRenames_notFound_perm`
 -/
 import MhlProps.C17
 import MhlProps.Proofs.SealVerifyLemmas
@@ -605,13 +609,23 @@ open MhlProps.C02rec MhlProps.C04
 def cNotFound (env : Env) (t : Node) (rootHist : Hist) (o : CreateOpts) : List RelPath :=
   (expectedPaths rootHist).filter fun p => !(cState env t rootHist o).found.contains p
 
+/-- the order in which `create -dr` visits the not-found paths: `sorted(not_found_paths)` (D19) -/
+abbrev pathLe (a b : RelPath) : Bool := strLe (posix a) (posix b)
+
+/-- the not-found paths in the order the detection visits them -/
+def cNotFoundSorted (env : Env) (t : Node) (rootHist : Hist) (o : CreateOpts) : List RelPath :=
+  isort pathLe (cNotFound env t rootHist o)
+
 /-- folder-mode `create -dr`, once the history loaded, the detection gave `(s', fo, ren)` and the commit of `s'`
-went through -/
+went through.
+D19 (the detection iterates `sorted(not_found_paths)`): the hypothesis `hdet` used to be about
+`detectRenames … (cNotFound env t rootHist o)`; it is now about the SORTED list `cNotFoundSorted env t rootHist o`.
+The conclusion is unchanged (the paths still missing are filtered out of the unsorted list). -/
 theorem createFolder_eq_dr (env : Env) (t : Node) (o : CreateOpts) (rootHist : Hist)
     (hl : loadHistory t = .ok rootHist) (hdr : o.detectRenaming = true)
     (s' : Session) (fo : List RelPath) (ren : List (String × String))
     (hdet : detectRenames env t rootHist (cState env t rootHist o).session (cState env t rootHist o).newPaths
-      (cNotFound env t rootHist o) = (s', fo, ren))
+      (cNotFoundSorted env t rootHist o) = (s', fo, ren))
     (ws : List Written) (hcm : commit rootHist s' env.rootName env.stamp "in-place" = .ok ws) :
     createFolder env t o =
       { err := createExit (cState env t rootHist o).failed
@@ -624,7 +638,7 @@ theorem createFolder_eq_dr (env : Env) (t : Node) (o : CreateOpts) (rootHist : H
         written := ws } := by
   unfold createFolder
   simp only [hl, hdr, if_true]
-  unfold cNotFound cState cHit at hdet
+  unfold cNotFoundSorted cNotFound cState cHit pathLe at hdet
   rw [hdet]
   simp only
   rw [hcm]
@@ -910,12 +924,16 @@ theorem createFolder_dr_single (env : Env) (t : Node) (o : CreateOpts) (rootHist
     unfold matchesB
     rw [hE]
     simp only [hnd, hdig, beq_self_eq_true]
+  have hnotFoundS : cNotFoundSorted env t rootHist o = [a] := by
+    unfold cNotFoundSorted
+    rw [hnotFound]
+    rfl
   have hdet : detectRenames env t rootHist (cState env t rootHist o).session (cState env t rootHist o).newPaths
-      (cNotFound env t rootHist o) =
+      (cNotFoundSorted env t rootHist o) =
       ({ cSession env t rootHist o with
           lists := [setPrevList ((cSession env t rootHist o).get []) (posix b) (posix a)] },
         [a], [(posix a, posix b)]) := by
-    rw [hsess, hnewPaths, hnotFound, detectRenames_pairs env t rootHist hc _ hs]
+    rw [hsess, hnewPaths, hnotFoundS, detectRenames_pairs env t rootHist hc _ hs]
     have hp : renamePairs env t rootHist.gens (cSession env t rootHist o) [b] [a] = [(b, a)] := by
       simp [renamePairs, hm]
     rw [hp]
@@ -2149,5 +2167,360 @@ theorem moveFile_moved (hit : RelPath → Bool) (rn : String) (cs : List Node) (
     rw [ht2, addAt_dst _ pb nb c hHas1 hfresh1]
 
 end move
+
+/-! ## G. the order of the not-found paths (D19) -/
+
+/-- the inner step of `detectRenames`, named (verbatim) -/
+def drStepG (env : Env) (t : Node) (rootHist : Hist) (np : RelPath)
+    (acc : Session × List RelPath × List (String × String)) (nf : RelPath) :
+    Session × List RelPath × List (String × String) :=
+      let (s, foundOld, ren) := acc
+      let (oh, orel) := route rootHist nf
+      match findFirstAny oh.gens (posix orel) with
+      | none => acc
+      | some oldE =>
+        let holder := s.lists.findSome? fun l =>
+          if isPrefixOf l.root np then (l.find (posix (np.drop l.root.length))).map fun r => (l, r) else none
+        match holder with
+        | none => acc
+        | some (l, r) =>
+          let setPrev (s : Session) : Session :=
+            if r.path == "." then
+              match parentRoot rootHist l.root with
+              | some pr =>
+                let pl := s.get pr
+                s.put { pl with records := pl.records.map fun x =>
+                  if x.path == posix (np.drop pr.length) then { x with prev := some (posix orel) } else x }
+              | none => s
+            else
+              s.put { l with records := l.records.map fun x =>
+                if x.path == r.path then { x with prev := some (posix orel) } else x }
+          match r.entries.find? (fun e => e.fmt == oldE.fmt) with
+          | some e =>
+            if e.digest == oldE.digest then
+              (setPrev s, appendNew foundOld nf, ren ++ [(posix orel, posix np)])
+            else acc
+          | none =>
+            match t.at? np with
+            | some (.file _ c) =>
+              if env.H oldE.fmt c == oldE.digest then
+                (setPrev s, appendNew foundOld nf, ren ++ [(posix orel, posix np)])
+              else acc
+            | _ => acc
+
+theorem detectRenames_eq_G (env : Env) (t : Node) (rootHist : Hist)
+    (s : Session) (newPaths notFound : List RelPath) :
+    detectRenames env t rootHist s newPaths notFound =
+      newPaths.foldl (fun acc np => notFound.foldl (drStepG env t rootHist np) acc) (s, [], []) := rfl
+
+/-- the test of `detectRenames` for the pair (new path, not-found path) below a history that may have nested
+histories: the not-found path is routed to the history that owns it, then judged as on a flat history -/
+def matchesG (env : Env) (t : Node) (rootHist : Hist) (s : Session) (np nf : RelPath) : Bool :=
+  matchesB env t (route rootHist nf).1.gens s np (route rootHist nf).2
+
+/-- `setPrev` of `detectRenames`, with nested histories: the root record "." of a nested history is not touched,
+the record of the folder in the PARENT history's list is -/
+def setPrevG (rootHist : Hist) (s : Session) (l : NewList) (r : Record) (np : RelPath) (old : String) : Session :=
+  if r.path == "." then
+    match parentRoot rootHist l.root with
+    | some pr => s.put (setPrevList (s.get pr) (posix (np.drop pr.length)) old)
+    | none => s
+  else s.put (setPrevList l r.path old)
+
+theorem drStepG_eq (env : Env) (t : Node) (rootHist : Hist) (np : RelPath)
+    (acc : Session × List RelPath × List (String × String)) (nf : RelPath) :
+    drStepG env t rootHist np acc nf =
+      if matchesG env t rootHist acc.1 np nf then
+        match holderOf acc.1 np with
+        | some (l, r) => (setPrevG rootHist acc.1 l r np (posix (route rootHist nf).2), appendNew acc.2.1 nf,
+            acc.2.2 ++ [(posix (route rootHist nf).2, posix np)])
+        | none => acc
+      else acc := by
+  obtain ⟨s, fo, ren⟩ := acc
+  unfold drStepG matchesG matchesB newDigest holderEntries
+  generalize route rootHist nf = x
+  obtain ⟨oh, orel⟩ := x
+  simp only
+  cases hff : findFirstAny oh.gens (posix orel) with
+  | none => simp
+  | some oldE =>
+    simp only
+    change (match holderOf s np with
+      | none => (s, fo, ren)
+      | some (l, r) => _) = _
+    cases hh : holderOf s np with
+    | none => simp
+    | some x =>
+      obtain ⟨l, r⟩ := x
+      simp only [Option.map_some, Option.bind_some]
+      unfold digestFor setPrevG setPrevList
+      cases hfe : r.entries.find? (fun e => e.fmt == oldE.fmt) with
+      | some e =>
+        by_cases hd : e.digest = oldE.digest <;> simp [hd]
+      | none =>
+        simp only
+        cases hat : t.at? np with
+        | none => simp
+        | some n =>
+          cases n with
+          | dir _ _ _ => simp
+          | file nm c =>
+            by_cases hd : env.H oldE.fmt c = oldE.digest <;> simp [hd]
+
+/-- what `detectRenames` reads of a session, and what its writes leave alone: the lists are keyed by root, and the
+record of every new path has the same list root, path and entries -/
+def SameHolders (s' s : Session) : Prop := s'.RootsNodup ∧ ∀ q, holderInfo s' q = holderInfo s q
+
+theorem SameHolders.refl {s : Session} (hs : s.RootsNodup) : SameHolders s s := ⟨hs, fun _ => rfl⟩
+
+theorem SameHolders.trans {a b c : Session} (h1 : SameHolders a b) (h2 : SameHolders b c) : SameHolders a c :=
+  ⟨h1.1, fun q => (h1.2 q).trans (h2.2 q)⟩
+
+theorem matchesB_congr_holders (env : Env) (t : Node) (gens : List LGen) {s s' : Session}
+    (h : ∀ q, holderInfo s' q = holderInfo s q) (np nf : RelPath) :
+    matchesB env t gens s' np nf = matchesB env t gens s np nf := by
+  unfold matchesB newDigest
+  rw [holderEntries_eq_info, holderEntries_eq_info, h np]
+
+/-- overwriting a list of the session with the same list, previous paths set -/
+theorem sameHolders_put_mem (s : Session) (hs : s.RootsNodup) (l : NewList) (hl : l ∈ s.lists) (k old : String) :
+    SameHolders (s.put (setPrevList l k old)) s := by
+  rw [Session.put_of_mem s l (setPrevList l k old) hl rfl]
+  refine ⟨?_, ?_⟩
+  · unfold Session.RootsNodup at *
+    have : (s.lists.map fun x => if x.root == l.root then setPrevList l k old else x).map (·.root) =
+        s.lists.map (·.root) := by
+      rw [List.map_map]
+      apply List.map_congr_left
+      intro x _
+      simp only [Function.comp]
+      split
+      · next h => exact (by simpa using h : x.root = l.root).symm
+      · rfl
+    simp only
+    rw [this]
+    exact hs
+  · intro q
+    have hmap := holderOf_mapLists s.lists s.patterns s.patterns
+      (fun x => if x.root == l.root then setPrevList l k old else x)
+      (fun x k' => if x.root == l.root then
+        (if k' == "." then id else fun r => if r.path == k then { r with prev := some old } else r) else id)
+      (by
+        intro x _
+        by_cases hx : (x.root == l.root) = true
+        · simp only [hx, if_true]
+          exact (by simpa using hx : x.root = l.root).symm
+        · simp [hx])
+      (by
+        intro x hx k'
+        by_cases hxr : (x.root == l.root) = true
+        · have : x = l := root_unique hs hx hl (by simpa using hxr)
+          subst this
+          simp only [hxr, if_true]
+          exact setPrevList_find x k old k'
+        · simp [hxr])
+      q
+    have hs_eta : ({ lists := s.lists, patterns := s.patterns } : Session) = s := rfl
+    rw [hs_eta] at hmap
+    unfold holderInfo
+    rw [hmap, Option.map_map]
+    cases holderOf s q with
+    | none => rfl
+    | some x =>
+      obtain ⟨l2, r2⟩ := x
+      simp only [Option.map_some, Function.comp, Option.some.injEq, Prod.mk.injEq]
+      refine ⟨?_, ?_, ?_⟩
+      · split
+        · next h => exact (by simpa using h : l2.root = l.root).symm
+        · rfl
+      · split
+        · split
+          · rfl
+          · simp only; split <;> rfl
+        · rfl
+      · split
+        · split
+          · rfl
+          · simp only; split <;> rfl
+        · rfl
+
+/-- a list without records and without root record, added at the end, is nobody's holder -/
+theorem sameHolders_put_fresh (s : Session) (hs : s.RootsNodup) (pr : RelPath)
+    (hno : s.lists.any (fun l => l.root == pr) = false) (k old : String) :
+    SameHolders (s.put (setPrevList { root := pr } k old)) s := by
+  have hput : s.put (setPrevList { root := pr } k old) = { s with lists := s.lists ++ [{ root := pr }] } := by
+    unfold Session.put setPrevList
+    simp [hno]
+  rw [hput]
+  refine ⟨?_, ?_⟩
+  · unfold Session.RootsNodup at *
+    simp only [List.map_append, List.map_cons, List.map_nil]
+    rw [List.nodup_append]
+    refine ⟨hs, by simp, ?_⟩
+    intro a ha b hb
+    simp only [List.mem_singleton] at hb
+    subst hb
+    rintro rfl
+    obtain ⟨x, hx, rfl⟩ := List.mem_map.1 ha
+    have : s.lists.any (fun l => l.root == x.root) = true := List.any_eq_true.2 ⟨x, hx, by simp⟩
+    rw [hno] at this
+    cases this
+  · intro q
+    unfold holderInfo holderOf
+    simp only [List.findSome?_append, List.findSome?_cons, List.findSome?_nil]
+    have : (if isPrefixOf pr q = true then
+        Option.map (fun r => (({ root := pr } : NewList), r))
+          (({ root := pr } : NewList).find (posix (List.drop pr.length q))) else none) = none := by
+      split
+      · unfold NewList.find
+        split <;> rfl
+      · rfl
+    simp only [this, Option.or_none]
+
+theorem sameHolders_setPrevG (rootHist : Hist) (s : Session) (hs : s.RootsNodup) (l : NewList) (hl : l ∈ s.lists)
+    (r : Record) (np : RelPath) (old : String) : SameHolders (setPrevG rootHist s l r np old) s := by
+  unfold setPrevG
+  split
+  · split
+    · next pr _ =>
+      cases hany : s.lists.any (fun l => l.root == pr) with
+      | true =>
+        have hget : s.get pr ∈ s.lists := by
+          unfold Session.get
+          obtain ⟨x, hx, hxr⟩ := List.any_eq_true.1 hany
+          cases hf : s.lists.find? (fun l => l.root == pr) with
+          | none => rw [List.find?_eq_none] at hf; exact absurd hxr (hf x hx)
+          | some y => exact List.mem_of_find?_eq_some hf
+        exact sameHolders_put_mem s hs _ hget _ _
+      | false =>
+        have hget : s.get pr = { root := pr } := by
+          unfold Session.get
+          have : s.lists.find? (fun l => l.root == pr) = none := by
+            rw [List.find?_eq_none]
+            intro x hx hxr
+            have : s.lists.any (fun l => l.root == pr) = true := List.any_eq_true.2 ⟨x, hx, hxr⟩
+            rw [hany] at this
+            cases this
+          rw [this]
+          rfl
+        rw [hget]
+        exact sameHolders_put_fresh s hs pr hany _ _
+    · exact SameHolders.refl hs
+  · exact sameHolders_put_mem s hs l hl _ _
+
+/-- the inner step keeps what the loop reads -/
+theorem sameHolders_drStepG (env : Env) (t : Node) (rootHist : Hist) (np : RelPath)
+    (acc : Session × List RelPath × List (String × String)) (nf : RelPath) (hs : acc.1.RootsNodup) :
+    SameHolders (drStepG env t rootHist np acc nf).1 acc.1 := by
+  rw [drStepG_eq]
+  split
+  · cases hh : holderOf acc.1 np with
+    | none => exact SameHolders.refl hs
+    | some x =>
+      obtain ⟨l, r⟩ := x
+      exact sameHolders_setPrevG rootHist acc.1 hs l (holderOf_mem hh).1 r np _
+  · exact SameHolders.refl hs
+
+/-- a pair that does not match (judged on any session with the same holders) leaves the state alone -/
+theorem drStepG_of_not_match (env : Env) (t : Node) (rootHist : Hist) (s0 : Session) (np : RelPath)
+    (acc : Session × List RelPath × List (String × String)) (nf : RelPath) (hsim : SameHolders acc.1 s0)
+    (hm : matchesG env t rootHist s0 np nf = false) : drStepG env t rootHist np acc nf = acc := by
+  rw [drStepG_eq]
+  have : matchesG env t rootHist acc.1 np nf = false := by
+    unfold matchesG at hm ⊢
+    rw [matchesB_congr_holders env t _ hsim.2, hm]
+  simp [this]
+
+/-- the inner loop only sees the not-found paths that match, judged on the session `s0` the detection started with -/
+theorem inner_loop_G (env : Env) (t : Node) (rootHist : Hist) (s0 : Session) (np : RelPath)
+    (notFound : List RelPath) (acc : Session × List RelPath × List (String × String))
+    (hsim : SameHolders acc.1 s0) :
+    notFound.foldl (drStepG env t rootHist np) acc =
+      (notFound.filter (matchesG env t rootHist s0 np)).foldl (drStepG env t rootHist np) acc ∧
+    SameHolders (notFound.foldl (drStepG env t rootHist np) acc).1 s0 := by
+  induction notFound generalizing acc with
+  | nil => exact ⟨rfl, hsim⟩
+  | cons nf nfs ih =>
+    rw [List.foldl_cons]
+    cases hm : matchesG env t rootHist s0 np nf with
+    | false =>
+      rw [drStepG_of_not_match env t rootHist s0 np acc nf hsim hm]
+      simp only [List.filter_cons, hm, Bool.false_eq_true, if_false]
+      exact ih acc hsim
+    | true =>
+      simp only [List.filter_cons, hm, if_true, List.foldl_cons]
+      exact ih _ ((sameHolders_drStepG env t rootHist np acc nf hsim.1).trans hsim)
+
+/-- `detectRenames` only depends on the matching not-found paths of every new path, in their order -/
+theorem detectRenames_congr_filter (env : Env) (t : Node) (rootHist : Hist) (s : Session) (hs : s.RootsNodup)
+    (newPaths nf₁ nf₂ : List RelPath)
+    (h : ∀ np ∈ newPaths, nf₁.filter (matchesG env t rootHist s np) = nf₂.filter (matchesG env t rootHist s np)) :
+    detectRenames env t rootHist s newPaths nf₁ = detectRenames env t rootHist s newPaths nf₂ := by
+  rw [detectRenames_eq_G, detectRenames_eq_G]
+  suffices hgen : ∀ (acc : Session × List RelPath × List (String × String)), SameHolders acc.1 s →
+      newPaths.foldl (fun acc np => nf₁.foldl (drStepG env t rootHist np) acc) acc =
+        newPaths.foldl (fun acc np => nf₂.foldl (drStepG env t rootHist np) acc) acc from
+    hgen _ (SameHolders.refl hs)
+  induction newPaths with
+  | nil => intro acc _; rfl
+  | cons np nps ih =>
+    intro acc hsim
+    rw [List.foldl_cons, List.foldl_cons]
+    obtain ⟨e1, i1⟩ := inner_loop_G env t rootHist s np nf₁ acc hsim
+    obtain ⟨e2, -⟩ := inner_loop_G env t rootHist s np nf₂ acc hsim
+    have hnp := h np (by simp)
+    have : nf₁.foldl (drStepG env t rootHist np) acc = nf₂.foldl (drStepG env t rootHist np) acc := by
+      rw [e1, e2, hnp]
+    rw [← this]
+    exact ih (fun q hq => h q (by simp [hq])) _ i1
+
+
+/-- two lists with the same elements (as multisets), of which at most one passes the test, pass the same elements to
+a filter, in the same order -/
+theorem filter_eq_of_perm_unique {α : Type} (p : α → Bool) {l₁ l₂ : List α} (hp : l₁.Perm l₂)
+    (hu : ∀ a ∈ l₁, ∀ b ∈ l₁, p a = true → p b = true → a = b) : l₁.filter p = l₂.filter p := by
+  have hpf : (l₁.filter p).Perm (l₂.filter p) := hp.filter p
+  cases h1 : l₁.filter p with
+  | nil =>
+    rw [h1] at hpf
+    exact (List.perm_nil.1 hpf.symm).symm
+  | cons a as =>
+    have ha : a ∈ l₁.filter p := by rw [h1]; simp
+    have hall : ∀ {l : List α}, (l₁.filter p).Perm l → l = List.replicate (l₁.filter p).length a := by
+      intro l hl
+      rw [List.eq_replicate_iff]
+      refine ⟨hl.length_eq.symm, ?_⟩
+      intro b hb
+      have hb' : b ∈ l₁.filter p := hl.mem_iff.2 hb
+      rw [List.mem_filter] at hb' ha
+      exact hu b hb'.1 a ha.1 hb'.2 ha.2
+    rw [← h1, hall (List.Perm.refl _), ← hall hpf]
+
+/-- `matchesG` spelled out: the first entry recorded for the not-found path (in the history that owns it) has the
+digest the loop takes for the new path in that entry's format -/
+theorem matchesG_iff (env : Env) (t : Node) (rootHist : Hist) (s : Session) (np nf : RelPath) :
+    matchesG env t rootHist s np nf = true ↔
+      ∃ oldE, findFirstAny (route rootHist nf).1.gens (posix (route rootHist nf).2) = some oldE ∧
+        newDigest env t s np oldE.fmt = some oldE.digest := by
+  unfold matchesG matchesB
+  cases findFirstAny (route rootHist nf).1.gens (posix (route rootHist nf).2) with
+  | none => simp
+  | some oldE => simp
+
+theorem matchesG_flat (env : Env) (t : Node) (rootHist : Hist) (hc : rootHist.children = []) (s : Session)
+    (np nf : RelPath) : matchesG env t rootHist s np nf = matchesB env t rootHist.gens s np nf := by
+  unfold matchesG
+  rw [route_flat rootHist hc]
+
+/-- ORDER INDEPENDENCE of the rename detection (nested histories allowed): on a session keyed by root, if for every
+new path at most one of the not-found paths matches, the whole result of `detectRenames` (session, paths found
+again, renames reported) is the same for any two orders of the not-found paths -/
+theorem detectRenames_notFound_perm (env : Env) (t : Node) (rootHist : Hist) (s : Session)
+    (hs : s.RootsNodup) (newPaths nf₁ nf₂ : List RelPath) (hp : nf₁.Perm nf₂)
+    (hu : ∀ np ∈ newPaths, ∀ a ∈ nf₁, ∀ b ∈ nf₁, matchesG env t rootHist s np a = true →
+      matchesG env t rootHist s np b = true → a = b) :
+    detectRenames env t rootHist s newPaths nf₁ = detectRenames env t rootHist s newPaths nf₂ :=
+  detectRenames_congr_filter env t rootHist s hs newPaths nf₁ nf₂ fun np hnp =>
+    filter_eq_of_perm_unique _ hp (hu np hnp)
 
 end MhlModel
